@@ -198,7 +198,9 @@ class Monitor:
         shp = np.broadcast(np.asarray(shape_p), np.asarray(scale)).shape if size is None else (size if isinstance(size, tuple) else (size,))
         val = self.gen.gamma(np.asarray(shape_p, dtype=float), np.asarray(scale, dtype=float), size=shp if shp else None)
         if self.plan["extreme_rate"] and self.frnd.random() < self.plan["extreme_rate"]:
-            factor = 1e-12 if self.frnd.random() < 0.5 else 1e12
+            # tail values far enough to reach both clipping bounds, not so far that products of several of
+            # them leave the float32 range the sampler computes in (that would test numpy, not the sampler)
+            factor = 1e-6 if self.frnd.random() < 0.5 else 1e6
             val = np.asarray(val) * factor
             self.stats.fault("rng.extreme")
             self.flags.add("extreme")
@@ -413,6 +415,9 @@ class Monitor:
             gam = np.asarray(wm.gam, dtype=float)
             W2 = wm.W.astype(float) ** 2
             tau_h = np.cumprod(gam)
+            if np.any(tau_h < 1e-30) or np.any(tau_h > 1e30) or np.any(gam < 1e-30) or np.any(gam > 1e30):
+                self.stats.probe("gamma_process_outside_float32_range_not_judged")
+                return
             if k == 0:
                 tmp = tau_h / gam[0]
                 return check(2 + 0.5 * wm.n_clines * D, 1 + 0.5 * float((tmp * W2).sum()), "delta0")
@@ -651,14 +656,15 @@ def _mvn_algebra(fn, Q, b, stats, violation):
     n = Q.shape[0]
     stats.oracle_evals += 1
     try:
+        # offset with z = 0, linear map with b = 0: no cancellation between the two parts
         m = np.asarray(fn(Q.copy(), mu_part=b.copy(), rng=_UnitFeeder(np.zeros(n))), dtype=float)
-        A = np.column_stack([np.asarray(fn(Q.copy(), mu_part=b.copy(), rng=_UnitFeeder(np.eye(n)[i])), dtype=float) - m for i in range(n)])
+        A = np.column_stack([np.asarray(fn(Q.copy(), mu_part=np.zeros(n), rng=_UnitFeeder(np.eye(n)[i])), dtype=float) for i in range(n)])
     except np.linalg.LinAlgError:
         return
     Qi = np.linalg.inv(Q)
-    if np.linalg.norm(A @ A.T - Qi) > 1e-8 * (np.linalg.norm(Qi) + 1e-300) * max(1.0, np.linalg.cond(Q)):
+    if np.linalg.norm(A @ A.T - Qi) > 1e-7 * (np.linalg.norm(Qi) + 1e-300) * max(1.0, np.linalg.cond(Q)):
         violation("C08.mvn-covariance", "sample_mvn_from_precision", f"draw has covariance {A @ A.T} but Q^-1 = {Qi}")
-    elif np.linalg.norm(m - Qi @ b) > 1e-8 * (np.linalg.norm(Qi @ b) + 1e-300) * max(1.0, np.linalg.cond(Q)):
+    elif np.linalg.norm(m - Qi @ b) > 1e-7 * (np.linalg.norm(Qi @ b) + 1e-300) * max(1.0, np.linalg.cond(Q)):
         violation("C08.mvn-mean", "sample_mvn_from_precision", f"draw has mean {m} but Q^-1 b = {Qi @ b}")
 
 
